@@ -393,6 +393,53 @@ func TestC09Chains(t *testing.T) {
 			r.Sample(map[string]any{"knobs": k.String(), "status": rec.Code})
 		}
 	}
+	// A transient object-storage failure on the upload of a NEW issuer: the
+	// submission may be refused, but once a submission of that chain is accepted
+	// every chain certificate must be retrievable.
+	for i := 0; i < pick(6, 60); i++ {
+		applied := i%2 == 1
+		ic := makeCA(rng, fmt.Sprintf("fresh intermediate %d/%d", shard, i), pki.roots["accepted"])
+		k := c09Knobs{Root: "accepted", Inter: 1, Order: "ok", NotAfter: "mid", EKU: "server", Type: pickOne(rng, []string{"final", "precert"}), Endpoint: "add-chain", Body: "ok"}
+		if k.Type == "precert" {
+			k.Endpoint = "add-pre-chain"
+		}
+		sp := leafSpec{NotAfter: c09NotAfter("mid"), EKU: "server"}
+		if k.Type == "precert" {
+			sp.Poison = "ok"
+		}
+		leaf := makeLeaf(rng, int64(shard*1000000+900000+i), ic, sp)
+		b := &c09Built{chain: [][]byte{leaf.DER, ic.DER}, leaf: leaf, issuerCA: ic, validated: []*genCert{ic, pki.roots["accepted"]}, expect: true, judged: true}
+		body := c09Body(k, b.chain)
+		hit := false
+		li.In.Plan = func(c *Call) Decision {
+			if !hit && c.Kind == OpUpload && strings.HasPrefix(c.Key, "issuer/") {
+				hit = true
+				return Decision{Apply: applied, Err: faultErr(faultKinds[i%len(faultKinds)])}
+			}
+			return decideOK
+		}
+		rec := do("POST", "/ct/v1/"+k.Endpoint, body)
+		li.In.Plan = nil
+		r.Eval(1)
+		info := map[string]any{"workload": "issuer-upload-fault", "applied": applied, "type": k.Type, "first_status": rec.Code}
+		r.DistinctKey(fmt.Sprintf("issuer-upload-fault/applied=%v/%s/first=%d", applied, k.Type, rec.Code))
+		if rec.Code == 200 {
+			checkC09Accepted(r, env, li, k, b, rec.Body.Bytes(), info)
+		}
+		for try := 0; try < 2; try++ {
+			rec = do("POST", "/ct/v1/"+k.Endpoint, body)
+			r.Eval(1)
+			info["retry_status"] = rec.Code
+			if rec.Code == 200 {
+				checkC09Accepted(r, env, li, k, b, rec.Body.Bytes(), info)
+				r.Count("accepted_after_issuer_upload_fault", 1)
+				break
+			}
+			if try == 1 {
+				viol("valid-submission-rejected:after-issuer-upload-fault", info, "a valid chain is still refused (HTTP %d) on the second attempt after a transient issuer upload failure", rec.Code)
+			}
+		}
+	}
 	// resubmissions get the byte-identical response
 	for _, o := range oks {
 		rec := do("POST", "/ct/v1/"+o.k.Endpoint, o.body)
